@@ -1,12 +1,13 @@
 (* C16 — proofs: the library-written rint / lrint fall-backs (etl) and gcem's round agree with
    the IEEE/ISO C specification (Flocq's Bnearbyint) on EVERY input, for every binary format
-   with 2 <= prec <= 64 (rint, lrint) resp. 2 <= prec <= 63 (round), in particular binary32 and
-   binary64 (and, for rint / lrint, the x87 extended format).
+   with 2 <= prec <= 64, in particular binary32, binary64 and the x87 extended format
+   (gcem round adds floor(|x|) + 1 in the floating-point type since commit 1802224; before that
+   it went through long long and needed prec <= 63).
    g_round calls gcem's floor kernel: that step uses ProofsFloor.g_floor_exact. *)
 From Coq Require Import ZArith Bool Lia Lra Psatz Reals.
 From Flocq Require Import Core BinarySingleNaN.
 From Tetl Require Import Lib.Base C16.Model C16.Spec.
-From Tetl Require C16.ProofsFloor.
+From Tetl Require C16.ProofsFloor C16.ProofsBasic.
 Local Open Scope Z_scope.
 
 (** * Part 1: integers and reals *)
@@ -544,6 +545,23 @@ Proof.
   - destruct (Bnearbyint_correct prec emax Hpe mode_NE x) as (_ & N2 & _). rewrite N2. exact Fx.
 Qed.
 
+(* ... and the conversion is undefined exactly when C leaves lrint unspecified (NaN, infinity,
+   rounded value outside long long): the fall-back has no other undefined case *)
+Theorem e_lrint_fb_char :
+  forall x : fl, e_lrint_fb prec emax Hp Hpe x =
+    match spec_lrint prec emax Hpe 64 x with Some z => Ok z | None => UB SignedOverflow end.
+Proof.
+  intros x. unfold e_lrint_fb. rewrite e_rint_fb_exact. cbn [rbind]. unfold spec_rint, spec_lrint.
+  destruct (Bnearbyint_correct prec emax Hpe mode_NE x) as (_ & N2 & _).
+  destruct x as [s|s| |s m e H].
+  - cbn. reflexivity.
+  - reflexivity.
+  - reflexivity.
+  - set (y := Bnearbyint mode_NE (B754_finite s m e H)) in *. unfold to_sint.
+    destruct y as [s'|s'| |s' m' e' H']; try discriminate N2;
+      destruct (in_s 64 _); reflexivity.
+Qed.
+
 End Rint.
 
 (** * Part 4: gcem round *)
@@ -605,32 +623,23 @@ Proof.
 Qed.
 
 Section Round.
-Hypothesis Hprec63 : (prec <= 63)%Z.
+Hypothesis Hprec64' : (prec <= 64)%Z.
 
-Lemma pow_prec1_le62 : (2 ^ (prec - 1) <= 2 ^ 62)%Z.
-Proof. apply Z.pow_le_mono_r; lia. Qed.
-
-(* static_cast<llint>(y) for an integral y below 2^63 *)
-Lemma to_sint_int :
-  forall (y : fl) n, is_finite y = true -> B2R y = IZR n -> (- 2 ^ 62 <= n <= 2 ^ 62)%Z ->
-  to_sint prec emax 64 y = Ok n.
+Lemma Bsign_g_abs : forall x : fl, is_finite x = true -> Bsign (g_abs prec emax Hp Hpe x) = false.
 Proof.
-  intros y n Fy Hy Hn. rewrite to_sint_finite by exact Fy.
-  rewrite Btrunc_Ztrunc, Hy, Ztrunc_IZR.
-  replace (in_s 64 n) with true; [reflexivity|].
-  symmetry. unfold in_s. apply andb_true_intro. split; [apply Z.leb_le | apply Z.ltb_lt]; lia.
+  intros x Fx. rewrite (ProofsBasic.g_abs_exact prec emax Hp Hpe x). unfold spec_fabs.
+  destruct x as [s|s| |s m e H]; try discriminate; reflexivity.
 Qed.
 
-(* find_whole on a positive argument below 2^(prec-1) *)
-Lemma g_find_whole_pos :
-  forall a : fl, is_finite a = true -> 0 < B2R a < bpow radix2 (prec - 1) ->
-  g_find_whole prec emax Hp Hpe a = Ok (round_Z (B2R a)) /\
-  (0 <= round_Z (B2R a) <= 2 ^ (prec - 1))%Z.
+(* round_int on a positive argument below 2^(prec-1): floor(a) or floor(a) + 1, computed in T *)
+Lemma g_round_int_pos :
+  forall a : fl, is_finite a = true -> Bsign a = false -> 0 < B2R a < bpow radix2 (prec - 1) ->
+  exists v : fl, g_round_int prec emax Hp Hpe a = Ok v /\ B2R v = IZR (round_Z (B2R a)) /\
+    is_finite v = true /\ Bsign v = false /\ (0 <= round_Z (B2R a) <= 2 ^ (prec - 1))%Z.
 Proof.
-  intros a Fa Ha. set (r := B2R a) in *.
+  intros a Fa Sa Ha. set (r := B2R a) in *.
   assert (Hprec : (2 <= prec <= 64)%Z) by lia.
-  assert (Hprec64 : (prec <= 64)%Z) by lia.
-  generalize pow_prec_double pow_prec1_le62. intros Epow HL.
+  generalize pow_prec_double. intros Epow.
   destruct half_correct as (Hh1 & Hh2 & _).
   (* the floor *)
   set (zf := Zfloor r).
@@ -641,12 +650,13 @@ Proof.
   { generalize (Zfloor_lb r) (Zfloor_ub r). fold zf. lra. }
   assert (Hk : (0 <= round_Z r <= 2 ^ (prec - 1))%Z).
   { unfold round_Z. fold zf. destruct (Rle_bool _ _); lia. }
-  split; [|exact Hk].
-  unfold g_find_whole. rewrite (ProofsFloor.g_floor_exact prec emax Hp Hpe Hprec). unfold spec_floor.
+  unfold g_round_int. rewrite (ProofsFloor.g_floor_exact prec emax Hp Hpe Hprec). unfold spec_floor.
   cbn [rbind].
-  destruct (Bnearbyint_correct prec emax Hpe mode_DN a) as (F1 & F2 & _).
+  destruct (Bnearbyint_correct prec emax Hpe mode_DN a) as (F1 & F2 & F3).
   rewrite round_FIX_IZR in F1. cbn [round_mode] in F1. fold r zf in F1. rewrite Fa in F2.
   set (f := Bnearbyint mode_DN a) in *.
+  assert (Sf : Bsign f = false).
+  { rewrite F3 by (apply finite_not_nan; exact F2). exact Sa. }
   (* the fractional part *)
   destruct (fsub_exact a f Fa F2) as (D1 & D2 & _).
   { rewrite F1. fold r. unfold zf. rewrite <- Ztrunc_floor by lra.
@@ -661,11 +671,15 @@ Proof.
   destruct (Rle_bool (/2) (r - IZR zf)).
   - rewrite (g_sgn_correct a Fa). fold r. rewrite Rlt_bool_true by lra.
     destruct one_correct as (O1 & O2 & _). change (ofZ 1) with one.
-    destruct (fadd_exact f one F2 O2) as (A1 & A2 & _).
+    destruct (fadd_exact f one F2 O2) as (A1 & A2 & A3).
     { rewrite F1, O1, <- plus_IZR. apply format_IZR. lia. }
     { rewrite F1, O1, <- plus_IZR. apply IZR_bound. lia. }
-    apply to_sint_int; [exact A2| |lia]. rewrite A1, F1, O1, <- plus_IZR. reflexivity.
-  - apply to_sint_int; [exact F2|exact F1|lia].
+    exists (fadd f one). split; [reflexivity|]. split; [rewrite A1, F1, O1, <- plus_IZR; reflexivity|].
+    split; [exact A2|]. split; [|lia].
+    rewrite A3; rewrite F1, O1, <- plus_IZR.
+    + apply Rlt_bool_false. apply IZR_le. lia.
+    + apply not_0_IZR. lia.
+  - exists f. split; [reflexivity|]. split; [exact F1|]. split; [exact F2|]. split; [exact Sf|lia].
 Qed.
 
 Lemma g_round_finite :
@@ -675,8 +689,7 @@ Proof.
   intros x Fx. unfold g_round.
   rewrite (fin_is_nan x Fx), (fin_is_finite x Fx), (fin_eq0 x Fx). cbn [negb].
   set (r := B2R x).
-  assert (Hprec64 : (prec <= 64)%Z) by lia.
-  generalize pow_prec_double pow_prec1_le62. intros Epow HL.
+  generalize pow_prec_double. intros Epow.
   destruct (Req_bool_spec r 0) as [E0|N0].
   { f_equal. apply nearbyint_unique; [exact Fx|exact Fx| |reflexivity].
     fold r. rewrite E0. cbn [round_mode]. rewrite (Zrnd_IZR ZnearestA 0). reflexivity. }
@@ -688,27 +701,25 @@ Proof.
   set (a := g_abs prec emax Hp Hpe x) in *.
   assert (Ha : 0 < B2R a < bpow radix2 (prec - 1)).
   { rewrite A1. split; [apply Rabs_pos_lt; exact N0|exact Hsmall]. }
-  destruct (g_find_whole_pos a A2 Ha) as (W & Hk). rewrite A1 in W, Hk.
-  unfold g_round_int. rewrite W. cbn [rbind]. set (k := round_Z (Rabs r)) in *.
-  destruct (of_Z_correct k) as (K1 & K2 & K3); [lia|].
-  rewrite Rlt_bool_false in K3 by (apply IZR_le; lia).
+  destruct (g_round_int_pos a A2 (Bsign_g_abs x Fx) Ha) as (v & W & K1 & K2 & K3 & Hk). rewrite A1 in K1, Hk.
+  rewrite W. cbn [rbind]. set (k := round_Z (Rabs r)) in *.
   rewrite (g_sgn_correct x Fx). fold r.
   assert (Sx : Bsign x = Rlt_bool r 0) by (apply Bsign_finite; [exact Fx|exact N0]).
   f_equal. apply nearbyint_unique; [exact Fx| | |]; cbn [round_mode]; fold r.
   - destruct (Rlt_bool 0 r); [|destruct (Rlt_bool r 0)].
     all: match goal with |- is_finite (fmul (ofZ ?s) _) = true =>
            destruct (of_Z_correct s) as (S1 & S2 & _); [cbn; lia|];
-           apply (fmul_exact (ofZ s) (ofZ k) S2 K2); rewrite S1, K1, <- mult_IZR;
+           apply (fmul_exact (ofZ s) v S2 K2); rewrite S1, K1, <- mult_IZR;
            [apply format_IZR|apply IZR_bound]; lia end.
   - destruct (Rlt_bool_spec 0 r) as [Pr|Pr]; [|destruct (Rlt_bool_spec r 0) as [Nr|Nr]; [|lra]].
     + destruct (of_Z_correct 1) as (S1 & S2 & _); [cbn; lia|].
-      destruct (fmul_exact (ofZ 1) (ofZ k) S2 K2) as (M1 & _);
+      destruct (fmul_exact (ofZ 1) v S2 K2) as (M1 & _);
         [rewrite S1, K1, <- mult_IZR; apply format_IZR; lia
         |rewrite S1, K1, <- mult_IZR; apply IZR_bound; lia|].
       rewrite M1, S1, K1, Rmult_1_l. f_equal. rewrite round_Z_correct by lra.
       unfold k. rewrite Rabs_pos_eq by lra. reflexivity.
     + destruct (of_Z_correct (-1)) as (S1 & S2 & _); [cbn; lia|].
-      destruct (fmul_exact (ofZ (-1)) (ofZ k) S2 K2) as (M1 & _);
+      destruct (fmul_exact (ofZ (-1)) v S2 K2) as (M1 & _);
         [rewrite S1, K1, <- mult_IZR; apply format_IZR; lia
         |rewrite S1, K1, <- mult_IZR; apply IZR_bound; lia|].
       rewrite M1, S1, K1, <- mult_IZR. f_equal.
@@ -718,12 +729,12 @@ Proof.
   - rewrite Sx.
     destruct (Rlt_bool_spec 0 r) as [Pr|Pr]; [|destruct (Rlt_bool_spec r 0) as [Nr|Nr]; [|lra]].
     + destruct (of_Z_correct 1) as (S1 & S2 & S3); [cbn; lia|].
-      destruct (fmul_exact (ofZ 1) (ofZ k) S2 K2) as (_ & _ & M3);
+      destruct (fmul_exact (ofZ 1) v S2 K2) as (_ & _ & M3);
         [rewrite S1, K1, <- mult_IZR; apply format_IZR; lia
         |rewrite S1, K1, <- mult_IZR; apply IZR_bound; lia|].
       rewrite M3, S3, K3. rewrite !Rlt_bool_false by lra. reflexivity.
     + destruct (of_Z_correct (-1)) as (S1 & S2 & S3); [cbn; lia|].
-      destruct (fmul_exact (ofZ (-1)) (ofZ k) S2 K2) as (_ & _ & M3);
+      destruct (fmul_exact (ofZ (-1)) v S2 K2) as (_ & _ & M3);
         [rewrite S1, K1, <- mult_IZR; apply format_IZR; lia
         |rewrite S1, K1, <- mult_IZR; apply IZR_bound; lia|].
       rewrite M3, S3, K3. rewrite Rlt_bool_true by lra. reflexivity.
@@ -742,7 +753,7 @@ Qed.
 End Round.
 End Fmt.
 
-(** * the generic statements (hypotheses: 2 <= prec, and prec <= 64 resp. prec <= 63) *)
+(** * the generic statements (hypotheses: 2 <= prec <= 64) *)
 
 (** * binary32 and binary64 *)
 Theorem e_rint_fb_exact_b32 :
@@ -769,11 +780,23 @@ Theorem g_round_exact_b64 :
   forall x : b64, g_round 53 1024 p64 pe64 x = Ok (spec_round 53 1024 pe64 x).
 Proof. apply g_round_exact; lia. Qed.
 
-(* x87 extended (prec = 64): rint / lrint only; gcem round needs prec <= 63, because
-   find_whole converts floor(x) + 1 <= 2^(prec-1) to long long *)
+(* x87 extended (prec = 64) *)
+Theorem g_round_exact_b80 :
+  forall x : b80, g_round 64 16384 p80 pe80 x = Ok (spec_round 64 16384 pe80 x).
+Proof. apply g_round_exact; lia. Qed.
+
 Theorem e_rint_fb_exact_b80 :
   forall x : b80, e_rint_fb 64 16384 p80 pe80 x = Ok (spec_rint 64 16384 pe80 x).
 Proof. apply e_rint_fb_exact; lia. Qed.
+
+Theorem e_lrint_fb_char_formats :
+  (forall x : b32, e_lrint_fb 24 128 p32 pe32 x =
+     match spec_lrint 24 128 pe32 64 x with Some z => Ok z | None => UB SignedOverflow end) /\
+  (forall x : b64, e_lrint_fb 53 1024 p64 pe64 x =
+     match spec_lrint 53 1024 pe64 64 x with Some z => Ok z | None => UB SignedOverflow end) /\
+  (forall x : b80, e_lrint_fb 64 16384 p80 pe80 x =
+     match spec_lrint 64 16384 pe80 64 x with Some z => Ok z | None => UB SignedOverflow end).
+Proof. repeat split; apply e_lrint_fb_char; lia. Qed.
 
 Theorem e_lrint_fb_exact_b80 :
   forall (x : b80) z, spec_lrint 64 16384 pe80 64 x = Some z -> e_lrint_fb 64 16384 p80 pe80 x = Ok z.
